@@ -1,5 +1,5 @@
 """C10 — experiments processed in one invocation are independent of each other; combined_* tables are the per-experiment columns."""
-import os, sys, shutil, tempfile, types, json, gzip, re, itertools, copy, io, contextlib, logging
+import os, sys, shutil, tempfile, types, json, gzip, re, itertools, copy, io, contextlib, logging, traceback
 from decimal import Decimal
 from concurrent.futures import ThreadPoolExecutor
 from lib import *
@@ -239,33 +239,72 @@ def combine_unit(ctx, quick):
 
 
 # ====================================================================================================== process_sample: the flags (unit probe on the real method)
-def flags_probe(dmi, dme, strategy, seq):
-    """the real DatasetProcessor.process_sample with collect_reads / load_read_info / process_assigned_reads replaced by stubs: returns per experiment
-       (requires_polya_for_construction, require_monointronic_polya, require_monoexonic_polya) as seen by process_assigned_reads"""
+_REAL_ARGS = {}
+def real_args(read_group, nfiles):
+    """the args object exactly as run_pipeline receives it: isoquant.py's own parse_args -> check_and_load_args -> create_output_dirs -> set_additional_params
+       on a real command line (--bam_list describing one experiment per entry of nfiles, each with that many (sym-linked) bundled BAM files).  Returns a fresh deep copy."""
+    key = (read_group, tuple(nfiles))
+    if key not in _REAL_ARGS:
+        import isoquant as IQ
+        d = tempfile.mkdtemp(prefix="iqv_c10a_"); src = os.path.join(REPO, "tests", "simple_data"); bam = os.path.join(src, "chr9.4M.ont.sim.polya.bam")
+        lst = os.path.join(d, "experiments.txt")
+        with open(lst, "w") as f:
+            for i, n in enumerate(nfiles):
+                f.write("#E%d\n" % i)
+                for k in range(n):
+                    link = os.path.join(d, "e%d_f%d.bam" % (i, k)); os.symlink(bam, link); os.symlink(bam + ".bai", link + ".bai"); f.write(link + "\n")
+        cmd = ["--bam_list", lst, "--reference", os.path.join(src, "chr9.4M.fa.gz"), "--genedb", os.path.join(src, "chr9.4M.gtf.gz"), "--complete_genedb", "--data_type", "nanopore",
+               "-o", os.path.join(d, "out")] + (["--read_group", read_group] if read_group else [])
+        home = os.path.join(d, "home"); os.makedirs(home); old_home = os.environ.get("HOME"); old_argv = sys.argv
+        os.environ["HOME"] = home; sys.argv = ["isoquant.py"] + cmd
+        try:
+            with contextlib.redirect_stdout(io.StringIO()):
+                args, parser = IQ.parse_args(cmd); args = IQ.check_and_load_args(args, parser); IQ.create_output_dirs(args); IQ.set_additional_params(args)
+        finally:
+            sys.argv = old_argv
+            if old_home is None: os.environ.pop("HOME", None)
+            else: os.environ["HOME"] = old_home
+        _REAL_ARGS[key] = (args, d)
+    return copy.deepcopy(_REAL_ARGS[key][0])
+
+
+def drop_real_args():
+    for _, d in _REAL_ARGS.values(): shutil.rmtree(d, ignore_errors=True)
+    _REAL_ARGS.clear()
+
+
+def flags_probe(dmi, dme, strategy, seq, read_group=None):
+    """the real DatasetProcessor.process_sample on the real SampleData objects of a real args object (see real_args), with collect_reads / load_read_info /
+       process_assigned_reads replaced by stubs; seq = [(total assignments, with polyA, number of files)].  Returns (read_group == "file_name" as the run has it,
+       per experiment (requires_polya_for_construction, require_monointronic_polya, require_monoexonic_polya, use_technical_replicas) as seen by process_assigned_reads)"""
     from src import dataset_processor as DP
-    args = types.SimpleNamespace(read_group=None, resume=False, read_assignments=None, keep_tmp=True, low_polya_percentage_threshold=0.1, polya_percentage_threshold=0.7,
-                                 polya_requirement_strategy=DP.PolyAUsageStrategies[strategy], require_monointronic_polya=dmi, require_monoexonic_polya=dme,
-                                 requires_polya_for_construction=False, genedb=None, needs_reference=False, reference=None, output="/nonexistent", _cmd_line="x", _version="v")
+    args = real_args(read_group, [x[2] for x in seq])
+    # overrides: no annotation / reference loading in DatasetProcessor.__init__, the strategy under test, the strategy defaults under test
+    args.genedb = None; args.needs_reference = False; args.keep_tmp = True
+    args.polya_requirement_strategy = DP.PolyAUsageStrategies[strategy]; args.require_monointronic_polya = dmi; args.require_monoexonic_polya = dme
+    rgfn = args.read_group == "file_name"
     dp = DP.DatasetProcessor(args); obs = []; cur = {}
     orig = DP.prepare_read_groups; DP.prepare_read_groups = lambda a, s: None
     dp.collect_reads = lambda sample: None
     dp.load_read_info = lambda f: (cur["total"], cur["polya"], set())
-    dp.process_assigned_reads = lambda sample, f: obs.append((bool(args.requires_polya_for_construction), bool(args.require_monointronic_polya), bool(args.require_monoexonic_polya)))
-    d = tempfile.mkdtemp(prefix="iqv_c10f_")
+    dp.process_assigned_reads = lambda sample, f: obs.append((bool(args.requires_polya_for_construction), bool(args.require_monointronic_polya), bool(args.require_monoexonic_polya),
+                                                              bool(args.use_technical_replicas)))
     try:
-        for i, (total, polya) in enumerate(seq):
+        assert len(args.input_data.samples) == len(seq)
+        for sample, (total, polya, n) in zip(args.input_data.samples, seq):
+            assert len(sample.file_list) == n
             cur["total"] = total; cur["polya"] = polya
-            dp.process_sample(types.SimpleNamespace(prefix="E%d" % i, file_list=[["x.bam"]], read_group_file=os.path.join(d, "rg%d" % i), out_raw_file=os.path.join(d, "raw%d" % i)))
+            dp.process_sample(sample)
     finally:
-        DP.prepare_read_groups = orig; shutil.rmtree(d, ignore_errors=True)
-    return obs
+        DP.prepare_read_groups = orig
+    return rgfn, obs
 
 
 def sticky_key(observed, alone):
     """the signature of the sticky `or`: the multi-exon requirement of every experiment is its own, and a 2-exon / mono-exon flag differs from the stand-alone value only by
        being on where an earlier experiment of the sequence had it on"""
     for k, (o, a) in enumerate(zip(observed, alone)):
-        if o is None or a is None or o[0] != a[0]: return None
+        if o is None or a is None or o[0] != a[0] or tuple(o[3:]) != tuple(a[3:]): return None
         for i in (1, 2):
             if o[i] != a[i] and not (o[i] and not a[i] and any(p[i] for p in observed[:k])): return None
     return "C10:sticky-polya-flags"
@@ -273,35 +312,52 @@ def sticky_key(observed, alone):
 
 def flags_variant():
     """True when the checked-out process_sample derives the flags from the strategy defaults (fixes/C10_sticky_flags.diff), False when they are sticky"""
-    return flags_probe(False, False, "auto", [(100, 90), (100, 20)])[1] == (False, False, False)
+    return flags_probe(False, False, "auto", [(100, 90, 1), (100, 20, 1)])[1][1][:3] == (False, False, False)
 
 
 def flags_unit(ctx, quick):
     quiet(); cases = []
     fr = {True: [(100, 90), (10, 7), (1000, 700)], False: [(100, 20), (0, 0), (1000, 699), (7, 0)]}
-    k = 0
+    plan = []; k = 0
     for dmi, dme in itertools.product((False, True), repeat=2):
-        for si, st in enumerate(("auto", "never", "always")):
+        for st in ("auto", "never", "always"):
             for n in (1, 2, 3, 4):
                 for highs in itertools.product((True, False), repeat=n):
-                    seq = [fr[h][(k + j) % len(fr[h])] for j, h in enumerate(highs)]; k += 1
-                    try: obs = flags_probe(dmi, dme, st, seq)
-                    except Exception as e:
-                        ctx.violation(None, "process_sample raises %s" % type(e).__name__, {"defaults": [dmi, dme], "strategy": st, "polyA (total, found)": seq, "error": repr(e)[:300]}); continue
-                    alone = [flags_probe(dmi, dme, st, [x])[0] for x in seq] if len(seq) > 1 else list(obs)
-                    cases.append(("(%s, %s, %d, %s, %s)" % (cbool(dmi), cbool(dme), si, clist(highs, cbool), clist(obs, lambda o: "(%s, %s, %s)" % tuple(map(cbool, o)))),
-                                  {"strategy defaults (2-exon, mono-exon)": [dmi, dme], "polya_requirement": st, "experiments (total assignments, with polyA)": seq, "observed flags": obs,
-                                   "stand-alone flags": alone}))
-    vf = flags_variant()
+                    seq = [fr[h][(k + j) % len(fr[h])] + ((1, 2, 1, 3)[(k + j) % 4],) for j, h in enumerate(highs)]; k += 1
+                    plan.append((dmi, dme, st, (None, "file_name", "tag:RG")[k % 3], list(highs), seq))
+    # use_technical_replicas: every sequence of 1-3 experiments with one / two / three files x the three ways reads can be grouped
+    for rg in (None, "file_name", "tag:RG"):
+        for n in (1, 2, 3):
+            for nf in itertools.product((1, 2, 3), repeat=n):
+                plan.append((True, True, "auto", rg, [False] * n, [(100, 20, x) for x in nf]))
+    try:
+        for dmi, dme, st, rg, highs, seq in plan:
+            rep = {"strategy defaults (2-exon, mono-exon)": [dmi, dme], "polya_requirement": st, "--read_group": rg, "experiments (total assignments, with polyA, files)": seq}
+            try:
+                rgfn, obs = flags_probe(dmi, dme, st, seq, rg)
+                alone = [flags_probe(dmi, dme, st, [x], rg)[1][0] for x in seq] if len(seq) > 1 else list(obs)
+            except Exception as e:
+                ctx.violation(None, "process_sample raises %s" % type(e).__name__, dict(rep, error=traceback.format_exc()[-1200:])); continue
+            si = ("auto", "never", "always").index(st)
+            cases.append(("(%s, %s, %d, %s, %s, %s)" % (cbool(dmi), cbool(dme), si, cbool(rgfn), clist(zip(highs, seq), lambda x: "(%s, %d)" % (cbool(x[0]), x[1][2])),
+                                                       clist(obs, lambda o: "(%s, %s, %s, %s)" % tuple(map(cbool, o)))),
+                          dict(rep, **{"read_group == file_name in the run": rgfn, "observed flags (multi-exon, 2-exon, mono-exon, use_technical_replicas)": obs, "stand-alone flags": alone})))
+        vf = flags_variant()
+    finally:
+        drop_real_args()
     ctx.notes.append("process_sample flags: the checked-out code behaves like the %s model" % ("repaired" if vf else "current (sticky or)"))
     pre = PRE + "Definition check := check_flags %s.\nDefinition prop := prop_flags.\n" % cbool(vf)
-    mism, viol = ctx.corr("process_sample_flags", pre, cases, shard=200, nontrivial=lambda o: len(o["observed flags"]) > 1, ctype="flagcase")
-    ctx.corr_report("process_sample_flags", mism, viol, keyfn=lambda o: sticky_key(o["observed flags"], o["stand-alone flags"]),
-                    what="DatasetProcessor.process_sample: polyA requirement flags of an experiment depend on the experiments processed before it")
-    ctx.rule("process_sample flags: the real DatasetProcessor.process_sample with reading / model construction stubbed, all sequences of 1-4 experiments with polyA fraction above / "
-             "below the 0.7 threshold (incl. exactly 0.7, 0.699, zero assignments) x polya_requirement auto/never/always x the four (2-exon, mono-exon) strategy defaults = %d "
-             "sequences (exhaustive); the flags seen by process_assigned_reads compared with the model and with a stand-alone run; non-trivial = at least two experiments" % len(cases))
-    ctx.exhaustive = dict(domain="sequences of <= 4 experiments over {polyA high, low} x 3 polyA strategies x 4 default pairs", size=len(cases))
+    OBS = "observed flags (multi-exon, 2-exon, mono-exon, use_technical_replicas)"
+    mism, viol = ctx.corr("process_sample_flags", pre, cases, shard=200, nontrivial=lambda o: len(o[OBS]) > 1, ctype="flagcase")
+    ctx.corr_report("process_sample_flags", mism, viol, keyfn=lambda o: sticky_key(o[OBS], o["stand-alone flags"]),
+                    what="DatasetProcessor.process_sample: polyA requirement flags / the technical-replica flag of an experiment depend on the experiments processed before it")
+    ctx.rule("process_sample flags: the real DatasetProcessor.process_sample on the real SampleData objects and the real args object (isoquant.py's parse_args, check_and_load_args, "
+             "create_output_dirs, set_additional_params on a --bam_list command line; only genedb / reference loading switched off and the strategy under test set), with reading / model "
+             "construction stubbed: all sequences of 1-4 experiments with polyA fraction above / below the 0.7 threshold (incl. exactly 0.7, 0.699, zero assignments) x polya_requirement "
+             "auto/never/always x the four (2-exon, mono-exon) strategy defaults, 1-3 files per experiment, reads grouped by nothing / file_name / a tag; all sequences of 1-3 experiments "
+             "with 1/2/3 files x the three groupings; %d sequences (exhaustive); the flags incl. use_technical_replicas seen by process_assigned_reads compared with the model and with "
+             "a stand-alone run; non-trivial = at least two experiments" % len(cases))
+    ctx.exhaustive = dict(domain="sequences of <= 4 experiments over {polyA high, low} x 3 polyA strategies x 4 default pairs; sequences of <= 3 experiments over {1,2,3 files} x 3 groupings", size=len(cases))
 
 
 # ====================================================================================================== whole runs
@@ -427,8 +483,17 @@ def pipeline(ctx, quick):
         # ------------------------------------------------ data: a generated three-chromosome world with four read sets, and the bundled chr9 data with a subset
         wd = os.path.join(root, "w"); w = gen_data.World(11 if quick else 11 + 100 * ctx.seed, n_chr=3, genes_per_chr=(3, 5)); w.reads_from_annotation(per_isoform=5); w.novel_reads()
         reads = w.reads; w.reads = []; w.write(wd, n_bams=0); index_fasta(os.path.join(wd, "genome.fa"))
-        wf = {k: os.path.join(wd, k + ".bam") for k in ("H", "L", "U", "H2")}
+        wf = {k: os.path.join(wd, k + ".bam") for k in ("H", "L", "U", "H2", "R1", "R2")}
         write_bam(w, reads, wf["H"]); write_bam(w, [strip_polya(r) for r in reads], wf["L"]); write_bam(w, reads[::2], wf["U"], unmapped=7); write_bam(w, reads, wf["H2"])
+        # technical replicas: the reads of H in two files; the unannotated exon-skipping reads of every second gene all in the first file (the replica filter suppresses that novel
+        # transcript), those of the other genes alternate between the files
+        ngenes = sorted(set(r["name"].split("_")[1] + "_" + r["name"].split("_")[2] for r in reads if r["name"].startswith("novel_")))
+        def replica_of(k, r):
+            if r["name"].startswith("novel_"):
+                g = r["name"].split("_")[1] + "_" + r["name"].split("_")[2]
+                return 0 if ngenes.index(g) % 2 == 0 else k % 2
+            return k % 2
+        write_bam(w, [r for k, r in enumerate(reads) if replica_of(k, r) == 0], wf["R1"]); write_bam(w, [r for k, r in enumerate(reads) if replica_of(k, r) == 1], wf["R2"])
         wcommon = ["--reference", os.path.join(wd, "genome.fa"), "--genedb", os.path.join(wd, "annotation.gtf"), "--complete_genedb", "--data_type", "nanopore"]
         wref, _ = P.read_gtf(os.path.join(wd, "annotation.gtf")); wchroms = list(w.chroms)
         bd = os.path.join(root, "b"); b = P.bundled(bd); b["fasta"] = plain_fasta(b["fasta"])
@@ -436,13 +501,16 @@ def pipeline(ctx, quick):
         bsub = os.path.join(bd, "half.bam"); rewrite_bam(b["bam"], [bsub], lambda a, i: (0 if i % 2 == 0 else None, a))
         bcommon = ["--reference", b["fasta"], "--genedb", b["gtf"], "--complete_genedb", "--data_type", "nanopore"]
         bref, _ = P.read_gtf(b["gtf"]); bchroms = ["chr9"]
-        EXP = {"EH": ([wf["H"]], None), "EL": ([wf["L"]], None), "EU": ([wf["U"]], None), "EI": ([wf["H2"]], None), "ER": ([wf["H"], wf["L"]], ["repA", "repB"]),
+        EXP = {"EH": ([wf["H"]], None), "EL": ([wf["L"]], None), "EU": ([wf["U"]], None), "EI": ([wf["H2"]], None), "ER": ([wf["H"], wf["L"]], ["repA", "repB"]), "ET": ([wf["R1"], wf["R2"]], None),
                "EB": ([b["bam"]], None), "EC": ([bsub], None)}
         OPT = {"sens": ["--model_construction_strategy", "sensitive_ont"], "dflt": [], "rich": ["--count_exons", "--read_group", "tag:RG", "--sqanti_output", "--check_canonical"],
-               "brich": ["--count_exons", "--sqanti_output", "--check_canonical", "--read_group", "file:%s:0:1" % b["groups"]]}
-        DEFAULTS = {"sens": (False, False), "dflt": (True, True), "rich": (True, True), "brich": (True, True)}
+               "brich": ["--count_exons", "--sqanti_output", "--check_canonical", "--read_group", "file:%s:0:1" % b["groups"]],
+               "fname": ["--read_group", "file_name"]}
+        DEFAULTS = {"sens": (False, False), "dflt": (True, True), "rich": (True, True), "brich": (True, True), "fname": (True, True)}
         plan = [(["EH", "EL"], "list", "sens"), (["EL", "EH"], "yaml", "sens"), (["EU", "EH", "EL"], "list", "dflt"), (["EH", "EU"], "yaml", "rich"), (["EH", "EI"], "list", "dflt"),
-                (["EB", "EC"], "list", "brich"), (["EC", "EB"], "yaml", "brich")]
+                (["EB", "EC"], "list", "brich"), (["EC", "EB"], "yaml", "brich"),
+                # a one-file experiment before / after an experiment with technical replicas, reads grouped by file name (args.use_technical_replicas is derived per experiment)
+                (["EU", "ET"], "list", "fname"), (["ET", "EU"], "yaml", "fname")]
         if not quick: plan += [(["EL", "EU", "EH"], "yaml", "sens"), (["EI", "EH", "EU"], "list", "rich"), (["EC", "EB", "EC2"], "list", "dflt")]
         EXP["EC2"] = ([bsub], None)
         jobs = []; alone = {}
@@ -554,9 +622,9 @@ def pipeline(ctx, quick):
             if all(o[0] is not None and o[1] is not None for o in obs) and not j.get("replicas"):
                 allids = sorted(set(t for e in exps for c in e[2] for t in c) | set(t for o in obs for c in o[2] for t in c)); ti = {t: k + 1 for k, t in enumerate(allids)}
                 dmi, dme = DEFAULTS[opt]
-                ce = clist(exps, lambda e: "(mke %s %d 0 %s)" % (cbool(e[0]), e[1], clist(e[2], lambda c: "[%s]" % czs([ti[t] for t in c]))))
+                ce = clist(zip(exps, seq), lambda e: "(mke %s %d 0 %s %d)" % (cbool(e[0][0]), e[0][1], clist(e[0][2], lambda c: "[%s]" % czs([ti[t] for t in c])), len(EXP[e[1]][0])))
                 co = clist(obs, lambda o: "(mkobs (%s, %s, %s) %d %s)" % (cbool(o[0][0]), cbool(o[0][1]), cbool(o[0][2]), o[1], clist(o[2], lambda c: czs(sorted(ti[t] for t in c)))))
-                runcases.append(("(%s, %s, 0, %s, %s, %s)" % (cbool(dmi), cbool(dme), cbool(j["threads"] > 1), ce, co),
+                runcases.append(("(%s, %s, 0, %s, %s, %s, %s)" % (cbool(dmi), cbool(dme), cbool(opt == "fname"), cbool(j["threads"] > 1), ce, co),
                                  rep(j, stand_alone=[dict(polyA_high=e[0], unmapped=e[1], known=sum(len(c) for c in e[2])) for e in exps],
                                      observed=[dict(flags=o[0], not_aligned=o[1], known=sum(len(c) for c in o[2])) for o in obs])))
             # ---- combined_* against the experiments' own tables of the same run
@@ -611,7 +679,7 @@ def pipeline(ctx, quick):
         ctx.rule("whole runs: a generated three-chromosome data set (gen_data.World; read sets H = all reads with polyA tails, L = the same reads without tails, U = every second read + 7 "
                  "unaligned records, a copy of H, a two-file experiment) and the bundled chr9 data (all reads / every second read); sequences of 2-3 experiments in ONE invocation "
                  "(list file and YAML; same and different data; both orders) x --threads {1,3} x option sets (default, sensitive_ont, --count_exons --read_group --sqanti_output "
-                 "--check_canonical) against stand-alone runs with -p <name>: every file of <out>/<name>/ compared byte for byte after decompression, ignoring the '# Command line:' line; "
+                 "--check_canonical, --read_group file_name with a one-file experiment before and after the replicate experiment) against stand-alone runs with -p <name>: every file of <out>/<name>/ compared byte for byte after decompression, ignoring the '# Command line:' line; "
                  "flags (isoquant.log), __not_aligned and the reported known isoforms go through the model process_sample_* ; combined_* through combined_ok in Coq; "
                  "runs started through props/c10_seed.py with foreign class-level state (50 unknown isoform ids, counters advanced) must equal the clean run, runs seeded with half of the "
                  "known isoforms the clean run reports reproduce the leak (model chr_known).  %d runs, %d file comparisons" % (len(jobs), n_cmp))
@@ -623,11 +691,11 @@ def run(ctx):
     quick = ctx.tier == "quick"
     ctx.prepare("C10.v")
     ctx.rule("regenerated from the source on every run (tools/translate_extra.py -> coq/gen/Extra.v; bridged to the model by C10_polya_strategy_is_the_source): PolyAUsageStrategies and set_polya_requirement_strategy of src/dataset_processor.py")
-    input_lists(ctx, quick)
-    input_yaml(ctx, quick)
-    combine_unit(ctx, quick)
-    flags_unit(ctx, quick)
-    pipeline(ctx, quick)
+    for name in ("input_lists", "input_yaml", "combine_unit", "flags_unit", "pipeline"):
+        # one failing adapter must not keep the other sections (in particular the whole-run comparisons) from looking for a concrete failing configuration
+        try: globals()[name](ctx, quick)
+        except Exception: ctx.broken("harness:%s" % name, "exception in section %s:\n%s" % (name, traceback.format_exc()[-3000:]))
+        finally: drop_real_args()
     ctx.assume.append("logging (isoquant.log, its timestamps and the duplicate counter) and the aux/ directory are not outputs; the '# Command line:' header line is ignored; "
                       ".gz files are compared after decompression (gzip headers carry a time stamp)")
     ctx.assume.append("paths in list / YAML files are already normal (os.path.normpath is not modelled); ASCII names; feature ids that pandas reads as missing values (NA, NaN, null, None) "
